@@ -15,8 +15,9 @@ from collections import Counter
 ROOT = os.path.dirname(os.path.dirname(os.path.abspath(__file__)))
 PY = os.environ.get("TWZ_PYTHON", "/venv/bin/python")
 REPO = os.environ.get("TWZ_REPO", "/repo")
-EVIDENCE_DIR = os.path.join(ROOT, "evidence")
-REPLAY_DIR = os.path.join(ROOT, "replays")
+# runs against a deliberately broken scratch tree (self-tests, seeded changes) must not touch the committed evidence
+EVIDENCE_DIR = os.environ.get("TWZ_EVIDENCE_DIR") or os.path.join(ROOT, "evidence")
+REPLAY_DIR = os.environ.get("TWZ_REPLAY_DIR") or os.path.join(ROOT, "replays")
 KNOWN = os.path.join(ROOT, "known_findings.json")
 
 
